@@ -116,6 +116,240 @@ theorem target_without_staking_records {s s' : State} {frm to : Addr} {sigOk : B
       · exact ht.1.2 p hp (by simp [e])
       · exact ht.2 p hp (by simp [e])
 
+
+/-! ## what `Execute` does to each store (component folds) -/
+
+theorem moveUbd_dels (c : Cfg) (frm to : Addr) (s : State) (p) : (moveUbd c frm to s p).dels = s.dels := by
+  unfold moveUbd; exact foldl_keep (fun s : State => s.dels) _ (by intros; rfl) _ _
+theorem moveRed_dels (c : Cfg) (frm to : Addr) (s : State) (p) : (moveRed c frm to s p).dels = s.dels := by
+  unfold moveRed; exact foldl_keep (fun s : State => s.dels) _ (by intros; rfl) _ _
+theorem moveUbd_startInfo (c : Cfg) (frm to : Addr) (s : State) (p) : (moveUbd c frm to s p).startInfo = s.startInfo := by
+  unfold moveUbd; exact foldl_keep (fun s : State => s.startInfo) _ (by intros; rfl) _ _
+theorem moveRed_startInfo (c : Cfg) (frm to : Addr) (s : State) (p) : (moveRed c frm to s p).startInfo = s.startInfo := by
+  unfold moveRed; exact foldl_keep (fun s : State => s.startInfo) _ (by intros; rfl) _ _
+theorem moveUbd_delIdx (c : Cfg) (frm to : Addr) (s : State) (p) : (moveUbd c frm to s p).delIdx = s.delIdx := by
+  unfold moveUbd; exact foldl_keep (fun s : State => s.delIdx) _ (by intros; rfl) _ _
+theorem moveRed_delIdx (c : Cfg) (frm to : Addr) (s : State) (p) : (moveRed c frm to s p).delIdx = s.delIdx := by
+  unfold moveRed; exact foldl_keep (fun s : State => s.delIdx) _ (by intros; rfl) _ _
+theorem moveRed_ubds (c : Cfg) (frm to : Addr) (s : State) (p) : (moveRed c frm to s p).ubds = s.ubds := by
+  unfold moveRed; exact foldl_keep (fun s : State => s.ubds) _ (by intros; rfl) _ _
+theorem moveRed_ubdIdx (c : Cfg) (frm to : Addr) (s : State) (p) : (moveRed c frm to s p).ubdIdx = s.ubdIdx := by
+  unfold moveRed; exact foldl_keep (fun s : State => s.ubdIdx) _ (by intros; rfl) _ _
+theorem moveUbd_ubds (c : Cfg) (frm to : Addr) (s : State) (p) :
+    (moveUbd c frm to s p).ubds = rekeyStep frm to s.ubds p := by
+  unfold moveUbd; exact foldl_keep (fun s : State => s.ubds) _ (by intros; rfl) _ _
+theorem moveUbd_ubdIdx (c : Cfg) (frm to : Addr) (s : State) (p) :
+    (moveUbd c frm to s p).ubdIdx = ins (rem s.ubdIdx (p.1.2, frm)) (p.1.2, to) := by
+  unfold moveUbd; exact foldl_keep (fun s : State => s.ubdIdx) _ (by intros; rfl) _ _
+
+theorem exec_dels (c : Cfg) (s : State) (frm to : Addr) :
+    (stakingExecute c s frm to).dels = (entriesOf s.dels frm).foldl (rekeyStep frm to) s.dels := by
+  unfold stakingExecute
+  refine (foldl_keep (fun s : State => s.dels) _ (moveRed_dels c frm to) _ _).trans ?_
+  refine (foldl_keep (fun s : State => s.dels) _ (moveUbd_dels c frm to) _ _).trans ?_
+  exact foldl_proj (fun s : State => s.dels) (moveDelegation c frm to) (rekeyStep frm to) (fun _ _ => rfl) _ _
+
+theorem fold1_ubds (c : Cfg) (s : State) (frm to : Addr) (L) :
+    (List.foldl (moveDelegation c frm to) s L).ubds = s.ubds :=
+  foldl_keep (fun s : State => s.ubds) _ (by intros; rfl) _ _
+theorem fold1_ubdIdx (c : Cfg) (s : State) (frm to : Addr) (L) :
+    (List.foldl (moveDelegation c frm to) s L).ubdIdx = s.ubdIdx :=
+  foldl_keep (fun s : State => s.ubdIdx) _ (by intros; rfl) _ _
+
+theorem exec_ubds (c : Cfg) (s : State) (frm to : Addr) :
+    (stakingExecute c s frm to).ubds = (entriesOf s.ubds frm).foldl (rekeyStep frm to) s.ubds := by
+  unfold stakingExecute
+  refine (foldl_keep (fun s : State => s.ubds) _ (moveRed_ubds c frm to) _ _).trans ?_
+  refine (foldl_proj (fun s : State => s.ubds) (moveUbd c frm to) (rekeyStep frm to) (moveUbd_ubds c frm to) _ _).trans ?_
+  simp only [fold1_ubds]
+  rfl
+
+/-- the index component of a loop: for every record moved, drop (x, from), add (x, to) -/
+def idxStep {β ν : Type} [DecidableEq β] (frm to : Addr) (i : List (β × Addr)) (p : (Addr × β) × ν) : List (β × Addr) :=
+  ins (rem i (p.1.2, frm)) (p.1.2, to)
+
+theorem idx_fold_mem {β ν : Type} [DecidableEq β] (frm to : Addr) (hne : frm ≠ to) (L : List ((Addr × β) × ν))
+    (i : List (β × Addr)) (x : β) (a : Addr) :
+    (x, a) ∈ L.foldl (idxStep frm to) i ↔
+      if ∃ p ∈ L, p.1.2 = x then (a = to ∨ (a ≠ frm ∧ (x, a) ∈ i)) else (x, a) ∈ i := by
+  induction L generalizing i with
+  | nil => simp
+  | cons p L ih =>
+    simp only [List.foldl_cons]
+    rw [ih]
+    by_cases hL : ∃ q ∈ L, q.1.2 = x
+    · have : ∃ q ∈ p :: L, q.1.2 = x := by obtain ⟨q, hq, e⟩ := hL; exact ⟨q, List.mem_cons_of_mem _ hq, e⟩
+      simp only [hL, this, ↓reduceIte, idxStep, mem_ins, mem_rem]
+      constructor
+      · rintro (h | ⟨h1, h2 | ⟨h3, h4⟩⟩)
+        · exact Or.inl h
+        · cases h2; exact Or.inl rfl
+        · exact Or.inr ⟨h1, h4⟩
+      · rintro (h | ⟨h1, h2⟩)
+        · exact Or.inl h
+        · refine Or.inr ⟨h1, Or.inr ⟨?_, h2⟩⟩
+          intro e; cases e; exact h1 rfl
+    · simp only [hL, ↓reduceIte, idxStep, mem_ins, mem_rem]
+      by_cases hp : p.1.2 = x
+      · have : ∃ q ∈ p :: L, q.1.2 = x := ⟨p, List.mem_cons_self .., hp⟩
+        simp only [this, ↓reduceIte, hp]
+        constructor
+        · rintro (h | ⟨h3, h4⟩)
+          · cases h; exact Or.inl rfl
+          · refine Or.inr ⟨?_, h4⟩
+            intro e; subst e; exact h3 rfl
+        · rintro (h | ⟨h1, h2⟩)
+          · subst h; exact Or.inl rfl
+          · refine Or.inr ⟨?_, h2⟩
+            intro e; cases e; exact h1 rfl
+      · have : ¬ ∃ q ∈ p :: L, q.1.2 = x := by
+          rintro ⟨q, hq, e⟩
+          rcases List.mem_cons.mp hq with rfl | hq'
+          · exact hp e
+          · exact hL ⟨q, hq', e⟩
+        simp only [this, ↓reduceIte]
+        constructor
+        · rintro (h | ⟨_, h4⟩)
+          · cases h; exact absurd rfl hp
+          · exact h4
+        · intro h
+          refine Or.inr ⟨?_, h⟩
+          intro e; cases e; exact hp rfl
+
+theorem exec_delIdx (s : State) (frm to : Addr) :
+    (stakingExecute cfg s frm to).delIdx = (entriesOf s.dels frm).foldl (idxStep frm to) s.delIdx := by
+  unfold stakingExecute
+  refine (foldl_keep (fun s : State => s.delIdx) _ (moveRed_delIdx cfg frm to) _ _).trans ?_
+  refine (foldl_keep (fun s : State => s.delIdx) _ (moveUbd_delIdx cfg frm to) _ _).trans ?_
+  exact foldl_proj (fun s : State => s.delIdx) (moveDelegation cfg frm to) (idxStep frm to)
+      (fun s p => by simp only [moveDelegation, cfg_from_code]; rfl) _ _
+
+theorem exec_ubdIdx (c : Cfg) (s : State) (frm to : Addr) :
+    (stakingExecute c s frm to).ubdIdx = (entriesOf s.ubds frm).foldl (idxStep frm to) s.ubdIdx := by
+  unfold stakingExecute
+  refine (foldl_keep (fun s : State => s.ubdIdx) _ (moveRed_ubdIdx c frm to) _ _).trans ?_
+  refine (foldl_proj (fun s : State => s.ubdIdx) (moveUbd c frm to) (idxStep frm to) (moveUbd_ubdIdx c frm to) _ _).trans ?_
+  simp only [fold1_ubds, fold1_ubdIdx]
+  rfl
+
+
+/-! ## portfolio_moved, queues_rewritten -/
+
+/-- **portfolio_moved** (delegations): after an accepted migration the target holds exactly the source's delegations,
+the source none, every other delegator's are untouched -/
+theorem portfolio_moved_delegations {s s' : State} {frm to : Addr} {sigOk : Bool}
+    (h : migrate cfg s frm to sigOk = .ok s') (d : Addr) (v : Val) :
+    get s'.dels (d, v) = if d = to then get s.dels (frm, v) else if d = frm then none else get s.dels (d, v) := by
+  obtain ⟨hne, _, _, _, _, _, _, rfl⟩ := migrate_ok_inv h
+  have hto := (target_without_staking_records h).1
+  show get (stakingExecute cfg (bankExecute s frm to) frm to).dels (d, v) = _
+  rw [exec_dels]
+  exact rekey_spec s.dels frm to hne hto d v
+
+/-- **portfolio_moved** (unbonding delegations, with all their entries: completion time, balance, unbonding id) -/
+theorem portfolio_moved_unbonding {s s' : State} {frm to : Addr} {sigOk : Bool}
+    (h : migrate cfg s frm to sigOk = .ok s') (d : Addr) (v : Val) :
+    get s'.ubds (d, v) = if d = to then get s.ubds (frm, v) else if d = frm then none else get s.ubds (d, v) := by
+  obtain ⟨hne, _, _, _, _, _, _, rfl⟩ := migrate_ok_inv h
+  have hto := (target_without_staking_records h).2.1
+  show get (stakingExecute cfg (bankExecute s frm to) frm to).ubds (d, v) = _
+  rw [exec_ubds]
+  exact rekey_spec s.ubds frm to hne hto d v
+
+/-- validator tokens, validator set, reward periods, withdraw addresses, proposals, deposits, votes, the proposal queues
+and the clock are not touched by a migration -/
+theorem portfolio_moved_frame {s s' : State} {frm to : Addr} {sigOk : Bool}
+    (h : migrate cfg s frm to sigOk = .ok s') :
+    s'.valTok = s.valTok ∧ s'.vals = s.vals ∧ s'.period = s.period ∧ s'.now = s.now := by
+  obtain ⟨_, _, _, _, _, _, _, rfl⟩ := migrate_ok_inv h
+  have key : ∀ (g : State → Nat) , True := fun _ => trivial
+  refine ⟨?_, ?_, ?_, ?_⟩ <;>
+  · show _ = _
+    unfold moved setRecord stakingExecute
+    first
+      | refine (foldl_keep (fun s : State => s.valTok) _ (fun s p => by
+          unfold moveRed; exact foldl_keep (fun s : State => s.valTok) _ (by intros; rfl) _ _) _ _).trans ?_
+        refine (foldl_keep (fun s : State => s.valTok) _ (fun s p => by
+          unfold moveUbd; exact foldl_keep (fun s : State => s.valTok) _ (by intros; rfl) _ _) _ _).trans ?_
+        exact foldl_keep (fun s : State => s.valTok) _ (by intros; rfl) _ _
+      | refine (foldl_keep (fun s : State => s.vals) _ (fun s p => by
+          unfold moveRed; exact foldl_keep (fun s : State => s.vals) _ (by intros; rfl) _ _) _ _).trans ?_
+        refine (foldl_keep (fun s : State => s.vals) _ (fun s p => by
+          unfold moveUbd; exact foldl_keep (fun s : State => s.vals) _ (by intros; rfl) _ _) _ _).trans ?_
+        exact foldl_keep (fun s : State => s.vals) _ (by intros; rfl) _ _
+      | refine (foldl_keep (fun s : State => s.period) _ (fun s p => by
+          unfold moveRed; exact foldl_keep (fun s : State => s.period) _ (by intros; rfl) _ _) _ _).trans ?_
+        refine (foldl_keep (fun s : State => s.period) _ (fun s p => by
+          unfold moveUbd; exact foldl_keep (fun s : State => s.period) _ (by intros; rfl) _ _) _ _).trans ?_
+        exact foldl_keep (fun s : State => s.period) _ (by intros; rfl) _ _
+      | refine (foldl_keep (fun s : State => s.now) _ (fun s p => by
+          unfold moveRed; exact foldl_keep (fun s : State => s.now) _ (by intros; rfl) _ _) _ _).trans ?_
+        refine (foldl_keep (fun s : State => s.now) _ (fun s p => by
+          unfold moveUbd; exact foldl_keep (fun s : State => s.now) _ (by intros; rfl) _ _) _ _).trans ?_
+        exact foldl_keep (fun s : State => s.now) _ (by intros; rfl) _ _
+
+/-- **queues_rewritten** (delegations-by-validator index, 0x71): afterwards no index entry mentions the source and
+every delegation of the target is indexed.  Hypothesis: before, the index held no entry of the source without a
+delegation record (an index is written and deleted together with its record). -/
+theorem queues_rewritten_delegation_index {s s' : State} {frm to : Addr} {sigOk : Bool}
+    (h : migrate cfg s frm to sigOk = .ok s')
+    (hidx : ∀ v, (v, frm) ∈ s.delIdx → ∃ sh, get s.dels (frm, v) = some sh) :
+    (∀ v, (v, frm) ∉ s'.delIdx) ∧ (∀ v sh, get s'.dels (to, v) = some sh → (v, to) ∈ s'.delIdx) := by
+  have hd := portfolio_moved_delegations h
+  obtain ⟨hne, _, _, _, _, _, _, rfl⟩ := migrate_ok_inv h
+  have hx : ∀ v a, (v, a) ∈ (moved s frm to).delIdx ↔
+      if ∃ p ∈ entriesOf s.dels frm, p.1.2 = v then (a = to ∨ (a ≠ frm ∧ (v, a) ∈ s.delIdx))
+      else (v, a) ∈ s.delIdx := fun v a => by
+    show (v, a) ∈ (stakingExecute cfg (bankExecute s frm to) frm to).delIdx ↔ _
+    rw [exec_delIdx]
+    exact idx_fold_mem frm to hne (entriesOf s.dels frm) s.delIdx v a
+  constructor
+  · intro v hm
+    rw [hx] at hm
+    split at hm
+    · rcases hm with e | ⟨e, _⟩
+      · exact hne e
+      · exact e rfl
+    · rename_i hno
+      obtain ⟨sh, hsh⟩ := hidx v hm
+      exact hno (entriesOf_of_get s.dels frm v sh hsh)
+  · intro v sh hg
+    rw [hd to v] at hg
+    simp only [↓reduceIte] at hg
+    rw [hx]
+    have := entriesOf_of_get s.dels frm v sh hg
+    simp only [this, ↓reduceIte, true_or]
+
+/-- **queues_rewritten** (unbonding-delegations-by-validator index, 0x33) -/
+theorem queues_rewritten_unbonding_index {s s' : State} {frm to : Addr} {sigOk : Bool}
+    (h : migrate cfg s frm to sigOk = .ok s')
+    (hidx : ∀ v, (v, frm) ∈ s.ubdIdx → ∃ es, get s.ubds (frm, v) = some es) :
+    (∀ v, (v, frm) ∉ s'.ubdIdx) ∧ (∀ v es, get s'.ubds (to, v) = some es → (v, to) ∈ s'.ubdIdx) := by
+  have hd := portfolio_moved_unbonding h
+  obtain ⟨hne, _, _, _, _, _, _, rfl⟩ := migrate_ok_inv h
+  have hx : ∀ v a, (v, a) ∈ (moved s frm to).ubdIdx ↔
+      if ∃ p ∈ entriesOf s.ubds frm, p.1.2 = v then (a = to ∨ (a ≠ frm ∧ (v, a) ∈ s.ubdIdx))
+      else (v, a) ∈ s.ubdIdx := fun v a => by
+    show (v, a) ∈ (stakingExecute cfg (bankExecute s frm to) frm to).ubdIdx ↔ _
+    rw [exec_ubdIdx]
+    exact idx_fold_mem frm to hne (entriesOf s.ubds frm) s.ubdIdx v a
+  constructor
+  · intro v hm
+    rw [hx] at hm
+    split at hm
+    · rcases hm with e | ⟨e, _⟩
+      · exact hne e
+      · exact e rfl
+    · rename_i hno
+      obtain ⟨es, hes⟩ := hidx v hm
+      exact hno (entriesOf_of_get s.ubds frm v es hes)
+  · intro v es hg
+    rw [hd to v] at hg
+    simp only [↓reduceIte] at hg
+    rw [hx]
+    have := entriesOf_of_get s.ubds frm v es hg
+    simp only [this, ↓reduceIte, true_or]
+
 /-- involvement of `a` in proposal `id`: proposer, depositor, or (for proposals in the voting period) voter -/
 def involvedDeposit (s : State) (a : Addr) (id : Nat) : Prop :=
   (∃ pr, get s.props id = some pr ∧ pr.proposer = a) ∨ (get s.deposits (id, a)).isSome = true
